@@ -1,7 +1,8 @@
 (* CloseInv.v -- invariant of the L3 model, part 1 (definitions only): writeMu,
    closed flag / progress of Close, triggerRotate / awaitRotate channels, the
-   rotation goroutine, state-pointer facts of lock holders and the per-handle
-   durability chain.  Independent of the refcount / finalizer scheme (part 2).
+   rotation goroutine, state-pointer facts of lock holders.  The per-file durability
+   chain and the readers' position facts are in CloseSafe.Safe; the refcount /
+   finalizer scheme is part 2.
    Parameters: w = the single writer thread (the only thread whose program
    contains StoreLogs/DeleteRange), r = the rotation goroutine. *)
 From Coq Require Import List Arith Bool Lia.
@@ -111,15 +112,7 @@ Definition th_facts1 (g : shared) (T : list thread) (rp : pc) (th : thread) : Pr
   | PLoad => op_locking th = true -> g_await g = None
   | PLoaded x | PAcq x => op_locking th = true -> x = g_cur g /\ g_await g = None
   | PBody x => s_open (getst g x) = true /\ (op_locking th = true -> x = g_cur g /\ g_await g = None)
-  | PGetRead x h => match cur_op th with
-                    | Some (OGet i) => h_base (geth g h) <= i /\ i - h_base (geth g h) < length (h_ents (geth g h))
-                    | _ => True
-                    end
-  | PApp1 x => x = g_cur g /\ s_open (getst g x) = true /\ g_await g = None
-  | PApp2 x => x = g_cur g /\ s_open (getst g x) = true /\ g_await g = None /\
-               h_wr (tailh g x) = length (h_ents (tailh g x))
-  | PApp3 x => x = g_cur g /\ s_open (getst g x) = true /\ g_await g = None /\
-               h_wr (tailh g x) = length (h_ents (tailh g x)) /\ h_syn (tailh g x) = h_wr (tailh g x)
+  | PApp1 x | PApp2 x | PApp3 x => x = g_cur g /\ s_open (getst g x) = true /\ g_await g = None
   | PTrig x => x = g_cur g /\ s_open (getst g x) = true /\ g_await g = None
   | PSend x => x = g_cur g /\ s_open (getst g x) = true /\ g_trig g = false /\ g_await g <> None /\
                rot_pend rp = false
@@ -128,7 +121,8 @@ Definition th_facts1 (g : shared) (T : list thread) (rp : pc) (th : thread) : Pr
   | PM0 k => s_open (getst g (g_cur g)) = true /\ krot_f g T k
   | PM1 y k | PM2 y k | PM3 y k => y = g_cur g /\ s_open (getst g y) = true /\ krot_f g T k
   | PM4 y f k => S y = g_cur g /\ krot_f g T k
-  | PRel _ _ k | PLast _ _ k | PRun _ _ _ k => krot_f g T k
+  | PRel _ _ k | PLast _ _ k | PRun _ _ _ k =>
+      krot_f g T k /\ (k = KRetry -> op_locking th = true -> g_await g = None)
   | PC5 x | PC6 x => x = g_cur g
   | PCSwapped x e => S x = g_cur g /\ e = g_cur g /\ s_open (getst g x) = true
   | PRT3 => K g T <= 1 /\ g_await g <> None
@@ -147,7 +141,6 @@ Record Inv1 (w r : tid) (s : sys) : Prop := {
   i_mu1 : forall t th, nth_error (ths s) t = Some th -> holds_mu th = true -> g_mu (sh s) = Some t;
   i_mu2 : forall t, g_mu (sh s) = Some t -> exists th, nth_error (ths s) t = Some th /\ holds_mu th = true;
   i_last : S (g_cur (sh s)) = length (g_states (sh s));
-  i_chain : forall h, h < length (g_hnds (sh s)) -> h_chain (geth (sh s) h);
   (* Close *)
   i_nact : nact (ths s) <= 1;
   i_nact0 : g_closed (sh s) = false -> nact (ths s) = 0;
